@@ -23,6 +23,7 @@ import CtyModel.Lemmas.WalkPre
 import CtyModel.Lemmas.d19Hash
 import CtyModel.Lemmas.d19Inj
 import CtyModel.Lemmas.d19Members
+import CtyModel.Lemmas.d19Complete
 import CtyModel.Lemmas.WalkStepsShape
 import CtyModel.Lemmas.WalkPathSet
 import CtyModel.Lemmas.WalkTrans
@@ -556,6 +557,35 @@ theorem pathRules_lawful_partial :
   symm a b ha hb := PathSet.goodRules_lawful.symm ⟨a, ha⟩ ⟨b, hb⟩
   trans a b c ha hb hc := PathSet.goodRules_lawful.trans ⟨a, ha⟩ ⟨b, hb⟩ ⟨c, hc⟩
   hash_eq a b _ _ h := pathset_rules_hash_coherent a b h
+
+/-- **No existing member is left out** (audit item 2, the converse of
+`walk_paths_lead_back`, one level at a time and hence at every depth).  Let `Walk`
+with a descending callback visit a known member `n` under path `p`, and let `s` be
+any step that names an existing member of `n` — `stepExists`, the predicate by which
+`IndexStep.Apply` / `GetAttrStep.Apply` succeed (`apply_step_ok_iff_exists`), with a
+known key of any representation (marked, another precision).  Then `Walk` also makes
+a visit under `p ++ [s']` where `s'` names the same member as `s` (`sameStep`: same
+attribute, number keys denoting the same index, string keys with the same
+content).  "Member" here is what path application can reach — not the model's own
+`children`. -/
+theorem walk_visits_every_existing_member {X : SetOracle} (hX : IterPerm X) (root : Value)
+    (hs : shapedV root = true) (p : Path) (n : Value) (hv : (p, n) ∈ (walk X descend root).1)
+    (s : PathStep) (hknown : n.isKnown = true)
+    (hk : (match s with | .index k => k.isKnown | .getAttr _ => true) = true)
+    (h : stepExists s n = true) :
+    ∃ s' m, (p ++ [s'], m) ∈ (walk X descend root).1 ∧ sameStep s s' = true := by
+  rw [walk_eq_preorder hX] at hv ⊢
+  obtain ⟨e, he, hev⟩ := List.mem_map.mp hv
+  simp only [Node.visit, Prod.mk.injEq] at hev
+  obtain ⟨rfl, rfl⟩ := hev
+  obtain ⟨e', he', s', hp', hss⟩ := preorder_has_kid hX root hs e he s hknown hk h
+  exact ⟨s', e'.2.2, List.mem_map.mpr ⟨e', he', by simp [Node.visit, hp']⟩, hss⟩
+
+/-- the sample's list `a` has a member at index 1 whichever way the key is written -/
+example : stepExists (.index ⟨.number, .marked ["k"] (.n (.fin false 1 0 512))⟩)
+      ⟨.list .string, .seq [.s "x", .marked ["m2"] (.s "y"), .unk .unref]⟩ = true ∧
+    sameStep (.index ⟨.number, .marked ["k"] (.n (.fin false 1 0 512))⟩) (.index (Value.intVal 1)) = true := by
+  decide
 
 /-! ### why `transform_id_partial` carries `SetsStable` (audit item 3) -/
 
